@@ -152,6 +152,11 @@ class Values:
         if isinstance(e, ast.Attribute) or (isinstance(e, ast.Subscript) and isinstance(e.slice, ast.Constant) and isinstance(e.slice.value, int)):
             # a component of a record / tuple built elsewhere: `positional.normal`, `pair[0]`
             fr2, env2, rec = self.trace(f, env, e.value, _depth + 1)
+            if isinstance(rec, ast.Name):
+                # a module-level record constant: `_MAP = _MapVariant(prefix="map", arg_stars=0)`
+                mv = self.module_value(fr2, rec)
+                if mv is not None:
+                    rec = mv
             comp = self._component(fr2, rec, e.attr if isinstance(e, ast.Attribute) else e.slice.value)
             if comp is not None:
                 return self.trace(fr2, env2, comp, _depth + 1)
@@ -338,6 +343,19 @@ class Values:
         if ta[2] is tb[2]:
             return True
         return ta[0] is tb[0] and isinstance(ta[2], ast.Name) and isinstance(tb[2], ast.Name) and ta[2].id == tb[2].id
+
+    def module_value(self, f: FuncInfo, e: ast.Name) -> Optional[ast.AST]:
+        """the value of a module-level name that is assigned exactly once in f's module (and is no local of f)"""
+        sc = self.an.scope(f)
+        if e.id in sc.params or e.id in sc.defs:
+            return None
+        m = f.module
+        v = m.assigns.get(e.id)
+        if v is None:
+            return None
+        n_assign = sum(1 for st in ast.walk(m.tree) if isinstance(st, (ast.Assign, ast.AnnAssign, ast.AugAssign))
+                       for t in (st.targets if isinstance(st, ast.Assign) else [st.target]) if isinstance(t, ast.Name) and t.id == e.id)
+        return v if n_assign <= 1 else None
 
     def const(self, f: FuncInfo, e: ast.AST) -> Optional[ast.Constant]:
         """The constant an expression stands for: a literal, a once-bound local or a module-level NAME = <literal>
